@@ -13,7 +13,7 @@ import itertools
 import re
 
 from ..model import AnalysisError, dotted
-from ..pse import NORMAL, Cfg, Enumerator
+from ..pse import CONTINUE, NORMAL, Cfg, Enumerator
 from ..reader import ReaderCfg
 from ..threads import ThreadCfg
 from ..typestate import Thread, explore
@@ -173,6 +173,17 @@ def slice_path(p, fds, tracked, what: str):
                 ops.append(op)
                 if op[0] == "use" and op[1] == "_kill_w" and func == "os.write":
                     ops.append(("set", "kill", True))
+        elif e.kind == "loop" and e.text == "True":
+            # the retry loop around the read: an iteration that goes round again (continue / falls off the end) did what it did
+            # before the iteration that leaves the loop
+            retries = []
+            for b in e.extra["paths"]:
+                if b.outcome is NORMAL or b.outcome == CONTINUE:
+                    o = [x for x in slice_path(b, fds, tracked, what) if x[0] != "retry"]
+                    if o and o not in retries:
+                        retries.append(o)
+            if retries:
+                ops.append(("retry", retries))
         elif e.kind == "loop" and e.text != "True":
             # zero or more iterations: resource uses inside become optional
             inner = set()
@@ -224,11 +235,19 @@ def run(ctx) -> None:
         o = slice_path(p, fds, tracked, "Inotify.close")
         if o not in closer_alts:
             closer_alts.append(o)
+    def with_retries(o):
+        """the alternatives of one call: no earlier iteration of the retry loop, or one (each way of going round again)"""
+        i = next((k for k, x in enumerate(o) if x[0] == "retry"), None)
+        if i is None:
+            return [o]
+        rest = with_retries(o[i + 1 :])
+        return [o[:i] + r for r in rest] + [o[:i] + pre + r for pre in o[i][1] for r in rest]
+
     reader_alts = []
     for p in read_paths:
-        o = slice_path(p, fds, tracked, "Inotify.read_events")
-        if o not in reader_alts:
-            reader_alts.append(o)
+        for o in with_retries(slice_path(p, fds, tracked, "Inotify.read_events")):
+            if o not in reader_alts:
+                reader_alts.append(o)
     ctx.extra["closer_skeleton"] = [[str(x) for x in a] for a in closer_alts]
     ctx.extra["reader_skeleton"] = [[str(x) for x in a] for a in reader_alts]
     ctx.sample({"closer_path": [str(x) for x in closer_alts[-1]]})
